@@ -7,7 +7,7 @@
 //
 // mode: p = retarget via the maintainer proxy (RetargetWithRefund / IsAuthorizedForRefund),
 // d = DisableProxy (Retarget / IsAuthorized).  Every chain call of one kind consumes the next
-// answer of its queue: readyQ/authQ entries t|f|e(rror); heightQ (GetLatestBlockHeight),
+// answer of its queue (an entry may be repeated: `1x30` = thirty times 1): readyQ/authQ entries t|f|e(rror); heightQ (GetLatestBlockHeight),
 // epochQ (CurrentEpoch, also inside waitForCurrentEpochUpdate), lenQ (ProofLength) entries
 // <number>|e; submitQ entries o(k)|e.  hdrFail: heights at which GetBlockHeader fails.
 // When a call finds its queue empty the history is over: the context is cancelled and every
@@ -168,10 +168,10 @@ func (r relay) RetargetWithRefund(hs []*bitcoin.BlockHeader) error { return r.su
 
 type signing struct{}
 
-func (signing) Address() chain.Address                { return "0xmaintainer" }
-func (signing) PublicKey() []byte                     { return nil }
-func (signing) Sign([]byte) ([]byte, error)           { return nil, errScripted }
-func (signing) Verify([]byte, []byte) (bool, error)   { return false, errScripted }
+func (signing) Address() chain.Address                       { return "0xmaintainer" }
+func (signing) PublicKey() []byte                            { return nil }
+func (signing) Sign([]byte) ([]byte, error)                  { return nil, errScripted }
+func (signing) Verify([]byte, []byte) (bool, error)          { return false, errScripted }
 func (signing) PublicKeyBytesToAddress([]byte) chain.Address { return "" }
 func (signing) VerifyWithPublicKey([]byte, []byte, []byte) (bool, error) {
 	return false, errScripted
@@ -218,14 +218,26 @@ func (b btc) GetBlockHeader(height uint) (*bitcoin.BlockHeader, error) {
 
 // ---- exec ----
 
+// okList parses a queue; an entry `v` may carry a repeat count `vxN` (N copies, 1 <= N <= 500).
 func okList(s string, allowed func(string) bool) ([]string, bool) {
-	l := hx.SplitList(s)
-	for _, x := range l {
+	var out []string
+	for _, x := range hx.SplitList(s) {
+		n := 1
+		if i := strings.IndexByte(x, 'x'); i > 0 {
+			c, err := strconv.Atoi(x[i+1:])
+			if err != nil || c < 1 || c > 500 || strconv.Itoa(c) != x[i+1:] {
+				return nil, false
+			}
+			n, x = c, x[:i]
+		}
 		if !allowed(x) {
 			return nil, false
 		}
+		for j := 0; j < n; j++ {
+			out = append(out, x)
+		}
 	}
-	return l, true
+	return out, true
 }
 
 func isAns(s string) bool { return s == "t" || s == "f" || s == "e" }
@@ -239,7 +251,7 @@ func isNumOrE(s string) bool {
 func isNum(s string) bool { return s != "e" && isNumOrE(s) }
 func isSub(s string) bool { return s == "o" || s == "e" }
 
-func exec(op string) (string, string) {
+func execInner(op string) (string, string) {
 	fs := strings.Fields(op)
 	if len(fs) != 9 || (fs[0] != "loop" && fs[0] != "sess") || (fs[1] != "p" && fs[1] != "d") {
 		return "bad-op", "bad"
@@ -294,7 +306,7 @@ func exec(op string) (string, string) {
 	}()
 	select {
 	case <-done:
-	case <-time.After(18 * time.Second):
+	case <-time.After(140 * time.Second):
 		return "HANG-loop", "hang"
 	}
 	w.mu.Lock()
@@ -326,6 +338,20 @@ func tagOf(kind string, evs []string) string {
 	if nsub >= 2 {
 		set["multi"] = true
 	}
+	ncRun, maxRun := 0, 0
+	for _, e := range evs {
+		if e[0] == 'c' {
+			ncRun++
+			if ncRun > maxRun {
+				maxRun = ncRun
+			}
+		} else {
+			ncRun = 0
+		}
+	}
+	if maxRun >= 30 {
+		set["longlag"] = true
+	}
 	if len(evs) > 0 {
 		last := evs[len(evs)-1]
 		if last[0] == 'y' || last[0] == 'a' || last[0] == 'f' {
@@ -347,12 +373,65 @@ func tagOf(kind string, evs []string) string {
 		}
 	}
 	var ks []string
-	for _, k := range []string{"loop", "sess", "submit", "multi", "fetch", "idle", "lag", "restart", "ineligible", "empty-proof"} {
+	for _, k := range []string{"loop", "sess", "submit", "multi", "fetch", "idle", "lag", "longlag", "restart", "ineligible", "empty-proof"} {
 		if set[k] {
 			ks = append(ks, k)
 		}
 	}
 	return strings.Join(ks, "+")
+}
+
+// ---- long relay lags ----
+//
+// waitForCurrentEpochUpdate sleeps one real second between polls (a literal in the code), so a
+// history in which the relay lags N polls behind a successful retarget costs N seconds.  Such
+// cases are started in the background when the op list is generated and collected when their
+// turn comes (they are appended at the end), so they overlap with the rest of the run.
+
+type result struct{ obs, tag string }
+
+var (
+	prefetchMu sync.Mutex
+	prefetched = map[string]chan result{}
+)
+
+func prefetch(op string) {
+	prefetchMu.Lock()
+	defer prefetchMu.Unlock()
+	if _, ok := prefetched[op]; ok {
+		return
+	}
+	ch := make(chan result, 1)
+	prefetched[op] = ch
+	go func() {
+		defer func() {
+			if e := recover(); e != nil {
+				ch <- result{"PANIC " + strings.ReplaceAll(fmt.Sprint(e), "\n", " "), "panic"}
+			}
+		}()
+		o, t := execInner(op)
+		ch <- result{o, t}
+	}()
+}
+
+func exec(op string) (string, string) {
+	prefetchMu.Lock()
+	ch, ok := prefetched[op]
+	if ok {
+		delete(prefetched, op)
+	}
+	prefetchMu.Unlock()
+	if ok {
+		r := <-ch
+		return r.obs, r.tag
+	}
+	return execInner(op)
+}
+
+// lagOp: one successful retarget for epoch 2, then the relay keeps answering 1 for n polls
+// before it reports 2; a second round follows (and would resubmit epoch 2 if the wait gave up).
+func lagOp(mode string, n int) string {
+	return fmt.Sprintf("loop %s t t 4034,4034 1,1x%d,2,2 3,3 o,o -", mode, n)
 }
 
 // ---- generator ----
@@ -492,14 +571,27 @@ func gen(r *hx.Rng, n int, tier string) []string {
 		ops = append(ops, strings.Join([]string{kind, mode, hx.JoinStrs(ready), hx.JoinStrs(auth),
 			hx.JoinStrs(heights), hx.JoinStrs(epochs), hx.JoinStrs(lens), hx.JoinStrs(submits), hx.JoinStrs(fails)}, " "))
 	}
+	// relay lags of 29, 30, 31 polls (thorough: also 45 and 100): run in the background from now on
+	lags := []int{29, 30, 31}
+	if tier == "thorough" {
+		lags = append(lags, 45, 100)
+	}
+	if n > 0 {
+		for i, l := range lags {
+			op := lagOp([]string{"p", "d"}[i%2], l)
+			prefetch(op)
+			ops = append(ops, op)
+		}
+	}
 	return ops
 }
 
 func main() {
 	hx.Main(&hx.Config{
-		Prop: "C43",
-		Gen:  gen,
-		Exec: exec,
+		Prop:         "C43",
+		PerOpTimeout: 150 * time.Second,
+		Gen:          gen,
+		Exec:         exec,
 		Facts: func() []string {
 			return []string{fmt.Sprintf("nat bitcoinDifficultyEpochLength %d", uint64(epochLen))}
 		},
